@@ -32,6 +32,8 @@ pub enum ThreadsCfg {
     MaxN(usize),
     /// exactly Max(1) / Usize(1)
     Seq,
+    /// Max(n), n in 6..=16: enough workers for spawns after one and two lag periods
+    Many,
 }
 #[derive(Clone, Copy, Debug, PartialEq, Eq)]
 pub enum ChunkCfg {
@@ -43,6 +45,8 @@ pub enum ChunkCfg {
     ExactOnly(usize),
     /// mostly hundreds to thousands of elements per pull (Exact and Min), Auto now and then
     Large,
+    /// small power-of-two minimum sizes (and Auto): the sizes that grow for workers spawned after a lag period
+    GrowingMin,
 }
 #[derive(Clone, Copy, Debug, PartialEq, Eq)]
 pub enum ParamPos {
@@ -117,6 +121,22 @@ impl GenCfg {
             yield_every: vec![1],
             long_inputs: false,
         }
+    }
+    /// scheduled mode aimed at adaptive chunk growth: many workers, small minimum chunk sizes, a few hundred to a few
+    /// thousand elements, so that workers spawned after a lag period get larger chunks than the first ones
+    /// (mixed chunk sizes in one run)
+    pub fn growth_sched() -> GenCfg {
+        let mut c = GenCfg::base(ModeCfg::Sched);
+        c.max_len = 1200;
+        c.long_inputs = true;
+        c.threads = ThreadsCfg::Many;
+        c.chunk = ChunkCfg::GrowingMin;
+        c.pos = ParamPos::OnSource;
+        c.yield_every = vec![1, 2, 8, 32];
+        c.src = SrcClass::Deep;
+        c.max_chain = 2;
+        c.min_chain = 1;
+        c
     }
     /// scheduled mode over long inputs with large chunks: coarse-grained hand-over
     pub fn long_sched() -> GenCfg {
@@ -232,7 +252,7 @@ fn len_strategy(max_len: usize) -> BoxedStrategy<usize> {
 }
 
 fn input_strategy(max_len: usize, long: bool) -> BoxedStrategy<Vec<u32>> {
-    let lens = if long { prop_oneof![1 => 300usize..=1000, 2 => 1000usize..=max_len.max(1001)].boxed() } else { len_strategy(max_len) };
+    let lens = if long { prop_oneof![1 => 300usize..=1000, 2 => 600usize..=max_len.max(1001)].boxed() } else { len_strategy(max_len) };
     lens
         .prop_flat_map(|n| {
             prop_oneof![
@@ -266,6 +286,7 @@ fn threads_strategy(cfg: ThreadsCfg) -> BoxedStrategy<Nt> {
         ]
         .boxed(),
         ThreadsCfg::Seq => prop_oneof![Just(Nt::Max(1)), Just(Nt::Usize(1))].boxed(),
+        ThreadsCfg::Many => prop_oneof![3 => (6usize..=9).prop_map(Nt::Max), 2 => (10usize..=16).prop_map(Nt::Max), 1 => Just(Nt::Auto)].boxed(),
     }
 }
 
@@ -314,6 +335,12 @@ fn chunk_strategy(cfg: ChunkCfg) -> BoxedStrategy<Cs> {
             // medium sizes around powers of two, mostly minimum sizes (they grow for late workers)
             1 => pow2ish(512).prop_map(Cs::Exact),
             3 => pow2ish(512).prop_map(Cs::Min),
+        ]
+        .boxed(),
+        ChunkCfg::GrowingMin => prop_oneof![
+            1 => Just(Cs::Auto),
+            8 => proptest::sample::select(vec![1usize, 2, 4, 8, 16, 32, 64]).prop_map(Cs::Min),
+            1 => proptest::sample::select(vec![3usize, 5, 12, 24, 48]).prop_map(Cs::Min),
         ]
         .boxed(),
         ChunkCfg::ExactOnly(m) => prop_oneof![
